@@ -35,6 +35,13 @@ def obligations(tier, ctx):
                 obs.append(Ob(name=f"lost_{tag}", params=params, pre=pre, call=f"H.lost_unless_misdirected({order!r}, {npos}, {gl}, T)",
                               real=f"H.lost_unless_misdirected_real({order!r}, {npos}, {gl}, T)", backend="P", timeout=to,
                               family="no-lost-response (outside the known-finding region: no response handed to a waiter that is not its addressee)"))
+    # ids that differ only in JSON type (symbolic str vs symbolic int), pure-python backend, concrete schedule
+    for order, npos in [((1, 0), -1), ((0, 1), 0), ((0, 1), -1)]:
+        for t0, t1 in (("str", "int"), ("int", "str")):
+            # an integer id of 0 is falsy and replaced by a generated id (message_id is documented as Optional[str]): excluded
+            pre = [("1 <= len(id0) <= 2" if t0 == "str" else "id0 != 0"), ("1 <= len(id1) <= 2" if t1 == "str" else "id1 != 0")]
+            obs.append(Ob(name=f"ids_{''.join(map(str, order))}_n{npos if npos >= 0 else 'x'}_{t0}{t1}", params=[("id0", t0), ("id1", t1)], pre=pre,
+                          call=f"H.crosstalk_ids({order!r}, {npos}, id0, id1)", backend="F", timeout=240, family="no-cross-talk / ids equal as text, different JSON type"))
     # the known finding is re-demonstrated on the smallest instance; if the tree is repaired this confirms and no line is printed
     for order, npos in [((1, 0), -1)] + ([((0, 1), 0)] if tier != "quick" else []):
         m = len(order) + (1 if npos >= 0 else 0)
